@@ -27,13 +27,13 @@ type gLease struct {
 }
 
 // verif:harness props=C03,C04,C05 tier=quick native=yes weight=400
-// verif:bounds history of K=3 (thorough 4) pull-API operations (the transport-neutral Server.Dequeue/AckSingle/NackSingle/Extend used by HTTP and gRPC) on a REAL MemoryStore with 2 messages of one route (the second one scheduled an arbitrary time ahead); before every operation the clock advances by an arbitrary amount (0..1h, symbolic, so every expiry/not-before boundary is hit to the nanosecond); operation from {dequeue batch 1, dequeue batch 2, ack, nack with arbitrary delay, dead-letter, extend by an arbitrary amount}, lease TTL arbitrary (0,1h]; presented lease id = any id handed out so far in this history (incl. ids of earlier lease epochs) or an unknown id; a ghost copy of the contract is kept alongside and compared after every step
+// verif:bounds history of K=3 pull-API operations (thorough: 4, the first one fixed to a dequeue with batch 2) (the transport-neutral Server.Dequeue/AckSingle/NackSingle/Extend used by HTTP and gRPC) on a REAL MemoryStore with 2 messages of one route (the second one scheduled an arbitrary time ahead); before every operation the clock advances by an arbitrary amount (0..1h, symbolic, so every expiry/not-before boundary is hit to the nanosecond); operation from {dequeue batch 1, dequeue batch 2, ack, nack with arbitrary delay, dead-letter, extend by an arbitrary amount}, lease TTL arbitrary (0,1h]; presented lease id = any id handed out so far in this history (incl. ids of earlier lease epochs) or an unknown id; a ghost copy of the contract is kept alongside and compared after every step
 func VerifC03PullHistory() {
 	pullHistory(false)
 }
 
 // verif:harness props=C04,C03 tier=quick native=yes weight=300
-// verif:bounds the same history harness (K=3 steps, thorough 4, real MemoryStore, ghost contract, arbitrary clock advances) with the BATCH operations in the mix: operation from {dequeue batch 2, ack, nack, batch ack and batch nack of two lease ids drawn from {first handed out, second handed out, unknown}}
+// verif:bounds the same history harness (K=3 steps; thorough 4 with the first one fixed to a dequeue with batch 2; real MemoryStore, ghost contract, arbitrary clock advances) with the BATCH operations in the mix: operation from {dequeue batch 2, ack, nack, batch ack and batch nack of two lease ids drawn from {first handed out, second handed out, unknown}}
 func VerifC04PullBatchHistory() {
 	pullHistory(true)
 }
@@ -63,7 +63,9 @@ func pullHistory(batchOps bool) {
 		vrt.Assume(adv >= 0 && adv <= time.Hour)
 		now = now.Add(adv)
 		op := 0
-		if batchOps {
+		if steps == 4 && step == 0 {
+			op = 1 // thorough: a fourth step in front, fixed to "dequeue with batch 2" (arbitrary TTL and clock)
+		} else if batchOps {
 			op = []int{1, 2, 3, 6, 7}[vrt.Choose("op", 5)]
 		} else {
 			op = vrt.Choose("op", 6)
